@@ -72,7 +72,7 @@ func main() {
 	gout, _ := os.Create(*outDir + "/go.out")
 	gops, _ := os.Create(*outDir + "/go.ops")
 	lw, gw, ow := bufio.NewWriterSize(li, 1<<20), bufio.NewWriterSize(gout, 1<<20), bufio.NewWriterSize(gops, 1<<20)
-	defer func() { lw.Flush(); gw.Flush(); ow.Flush() }()
+	defer func() { lw.Flush(); gw.Flush(); ow.Flush(); writeCoverage() }()
 	lineNo := 0
 	emit := func(lean, out []string) {
 		for i := range lean {
